@@ -204,7 +204,22 @@ def judge_brute(R, it, res, opt, val, entry=None):
         R.count("brute_force_reference: >=2 stable matchings")
 
 
+def weightbound_check(R, items):
+    """the one hypothesis of C03_irving_optimal (total negative rotation weight below sys.maxsize) evaluated by the model on every explored
+    instance (op irv_wb = weightBoundB, C03_weightBoundB_iff): the theorem applies to the instance iff the answer is 1"""
+    if not items:
+        return
+    ans = lean_query([" ".join(["irv_wb"] + sm_tokens(it)) for it in items])
+    for it, a in zip(items, ans):
+        t = a.split()
+        if t[0] == "ok" and t[1] == "1":
+            R.count("hypothesis_WeightBound_holds")
+        else:
+            R.count("hypothesis_WeightBound_fails_or_undefined(outside the optimality theorem; certificates still apply)")
+
+
 def brute_compare(R, items, results, entry=None):
+    weightbound_check(R, [it for it, r in zip(items, results) if isinstance(r, dict) and "pairs" in r])
     lines, where = [], []
     for i, (it, r) in enumerate(zip(items, results)):
         n = len(it["P1"])
